@@ -558,8 +558,13 @@ def one_symmetric(ctx, eng, rng, p, msg, in_coq, cases, meta):
         meta.append(('encrypt', pj(p), len(msg), o))
     if o == 'done':
         used_iv = iv_ret if iv_ret is not None else p['iv']
+        # ---- direct oracle: an IV mode with the IV omitted in the request must hand the generated IV back
+        needs_iv = p['mode'] in (M.CBC, M.CFB, M.OFB, M.CTR, M.GCM) and p['alg'] != A.RC4
+        if needs_iv and used_iv is None:
+            viol(ctx, 'encrypt', 'IV omitted in the request: the result does not carry the generated IV', p,
+                 {'msg': msg.hex()[:200], 'result_fields': sorted(v)})
         # ---- direct oracle: bytes equal to the independent reference
-        ref = ref_encrypt(p, used_iv, msg)
+        ref = ref_encrypt(p, used_iv, msg) if not (needs_iv and used_iv is None) else None
         if ref is not None:
             rct, rtag = ref
             if rct != ct:
@@ -629,7 +634,7 @@ def one_decrypt(ctx, eng, p, ct, tag, expect, in_coq, cases, meta, label):
         # reference decrypt of the engine's ciphertext
         cn = CIPHER_OF[p['alg'].name]
         mode = MODE_NAME.get(p['mode'])
-        if (cn == 'ARC4' or mode) and mode != 'GCM':
+        if (cn == 'ARC4' or mode) and mode != 'GCM' and not (mode in ('CBC', 'CFB', 'OFB', 'CTR') and p['iv'] is None):
             r = R.sym_decrypt(cn, p['key'], mode, p['iv'], PAD_SCHEME.get(p['pad']), ct)
             if r != expect:
                 viol(ctx, 'encrypt', 'the reference cannot decrypt the engine ciphertext', p, {'msg': expect.hex()[:200]})
@@ -1113,11 +1118,16 @@ def run_server(ctx, cases, meta, rsa_cache):
     srv = kdrv.Engine(workdir=ctx.work)
     quick = ctx.tier == 'quick'
 
-    def req(item):
+    def req(item, version=(1, 4)):
         del REC[:]
-        r = srv.request([item], version=(1, 4))
+        r = srv.request([item], version=version)
         it = r['items'][0]
         return srv_outcome(it), it, list(REC)
+
+    def reqn(items, version=(1, 4)):
+        del REC[:]
+        r = srv.request(list(items), version=version)
+        return [(srv_outcome(it), it) for it in r['items']]
 
     def reg_sym(alg, key, mask):
         o, it, _ = req(kdrv.register(secret=kdrv.symmetric_key_secret(key, alg, len(key) * 8), mask=mask))
@@ -1154,7 +1164,8 @@ def run_server(ctx, cases, meta, rsa_cache):
             p = dict(alg=alg, key=key, mode=tp['mode'], pad=tp['pad'], iv=iv, aad=tp['aad'], taglen=tp['taglen'])
             cpar = kdrv.crypto_params(cryptographic_algorithm=alg, block_cipher_mode=tp['mode'], padding_method=tp['pad'],
                                       tag_length=tp['taglen'])
-            o, it, calls = req(kdrv.encrypt(uid, cpar, data=msg, iv=iv, aad=tp['aad']))
+            ver = (1, 4) if ti % 2 == 0 else (2, 0)
+            o, it, calls = req(kdrv.encrypt(uid, cpar, data=msg, iv=iv, aad=tp['aad']), ver)
             ctx.count('server.encrypt.%s' % o.split(':')[0])
             ctx.case_seen(('srv-enc', pj(p), len(msg)))
             if o.startswith('kmip:'):
@@ -1172,10 +1183,15 @@ def run_server(ctx, cases, meta, rsa_cache):
             if o != 'done':
                 continue
             used_iv = iv_ret if iv_ret is not None else iv
-            ref = ref_encrypt(p, used_iv, msg)
+            needs_iv = tp['mode'] in (M.CBC, M.CFB, M.OFB, M.CTR, M.GCM) and alg != A.RC4
+            if needs_iv and used_iv is None:
+                viol(ctx, 'Encrypt', 'IV omitted in the request: the response does not carry the generated IV', p,
+                     {'msg': msg.hex()[:200], 'version': '%d.%d' % ver})
+            ref = ref_encrypt(p, used_iv, msg) if not (needs_iv and used_iv is None) else None
             if ref is not None and (ref[0] != ct or (ref[1] is not None and tag != ref[1][:len(tag or b'')])):
                 viol(ctx, 'Encrypt', 'response differs from the independent reference', p, {'msg': msg.hex()[:200]})
-            o2, it2, calls2 = req(kdrv.decrypt(uid, cpar, data=ct, iv=used_iv, aad=tp['aad'], tag=tag))
+            # Decrypt with exactly what the response carried (and the IV of the request, if there was one)
+            o2, it2, calls2 = req(kdrv.decrypt(uid, cpar, data=ct, iv=used_iv, aad=tp['aad'], tag=tag), ver)
             pl2 = it2['payload'] or {}
             out = hx(pl2.get('data'))
             ctx.count('server.decrypt.%s' % o2.split(':')[0])
@@ -1193,7 +1209,7 @@ def run_server(ctx, cases, meta, rsa_cache):
                                   ('aad', dict(data=ct, tag=tag, aad=flip(tp['aad']) if tp['aad'] else b'x'))):
                     if label == 'ct' and not ct:
                         continue
-                    o3, it3, _ = req(kdrv.decrypt(uid, cpar, iv=used_iv, **kw))
+                    o3, it3, _ = req(kdrv.decrypt(uid, cpar, iv=used_iv, **kw), ver)
                     if o3 == 'done':
                         viol(ctx, 'Decrypt', 'GCM accepted a modified %s through the server' % label, p, {})
         # ---------------- MAC
@@ -1308,6 +1324,111 @@ def run_server(ctx, cases, meta, rsa_cache):
                 meta.append(('server/derive-finish', pj(pdesc), nbytes, o))
             else:
                 viol(ctx, 'DeriveKey', 'unexpected outcome ' + o, pdesc, {'message': it['message']})
+        # ---------------- a key that is merely USED keeps computing what it claims (also inside batches, after a commit
+        # by a later item of the same request, and after a restart of the engine on the same database)
+        kU = rbytes(rng, 16)
+        uU = reg_sym(A.AES, kU, allmask)
+        kW = rbytes(rng, 32)
+        uW = reg_sym(A.AES, kW, allmask)
+        iv16 = rbytes(rng, 16)
+        msgU = rbytes(rng, 33)
+        cbc = kdrv.crypto_params(cryptographic_algorithm=A.AES, block_cipher_mode=M.CBC, padding_method=P.PKCS5)
+        ref_ct = ref_encrypt(dict(alg=A.AES, key=kU, mode=M.CBC, pad=P.PKCS5, aad=None), iv16, msgU)[0]
+        ref_mac = R.hmac_fn(4)(kU, msgU)
+        encW, decW, _ = R.block_fns('AES', kW)
+        ref_wrap = R.rfc3394_wrap(encW, kU)
+
+        def wspec():
+            return co.KeyWrappingSpecification(
+                wrapping_method=W.ENCRYPT,
+                encryption_key_information=co.EncryptionKeyInformation(
+                    unique_identifier=uW, cryptographic_parameters=kdrv.crypto_params(block_cipher_mode=M.NIST_KEY_WRAP)),
+                encoding_option=enums.EncodingOption.NO_ENCODING)
+
+        def material(it):
+            try:
+                return hx(it['payload']['secret']['key_block']['key_value']['key_material'])
+            except Exception:
+                return None
+
+        def enc_item():
+            return kdrv.encrypt(uU, cbc, data=msgU, iv=iv16)
+
+        def mac_item():
+            return kdrv.mac(uU, kdrv.crypto_params(cryptographic_algorithm=A.HMAC_SHA256), data=msgU)
+
+        def judge(label, kind, o, it):
+            """One response item about key uU against the references for the REGISTERED key bytes."""
+            w = {'after': label, 'registered_key': kU.hex(), 'outcome': o}
+            sig = {'history': label}
+            if kind == 'get':
+                got = material(it)
+                if o != 'done' or got != kU:
+                    viol(ctx, 'Get', 'stored key material changed by an operation that only uses the key', sig,
+                         dict(w, got=None if got is None else got.hex()))
+            elif kind == 'wrap':
+                got = material(it)
+                if o != 'done' or got != ref_wrap:
+                    viol(ctx, 'Get', 'wrapped Get differs from the RFC 3394 reference for the registered key', sig,
+                         dict(w, got=None if got is None else got.hex(), ref=ref_wrap.hex()))
+            elif kind == 'enc':
+                got = hx((it['payload'] or {}).get('data'))
+                if o != 'done' or got != ref_ct:
+                    viol(ctx, 'Encrypt', 'Encrypt no longer matches the reference for the registered key', sig,
+                         dict(w, got=None if got is None else got.hex(), ref=ref_ct.hex()))
+            elif kind == 'dec':
+                got = hx((it['payload'] or {}).get('data'))
+                if o != 'done' or got != msgU:
+                    viol(ctx, 'Decrypt', 'Decrypt no longer inverts an earlier Encrypt with the same key', sig,
+                         dict(w, got=None if got is None else got.hex()))
+            elif kind == 'mac':
+                got = hx((it['payload'] or {}).get('mac_data'))
+                if o != 'done' or got != ref_mac:
+                    viol(ctx, 'MAC', 'MAC no longer matches the reference for the registered key', sig,
+                         dict(w, got=None if got is None else got.hex(), ref=ref_mac.hex()))
+
+        def check_key(label):
+            for kind, item in (('get', kdrv.get(uU)), ('enc', enc_item()), ('mac', mac_item()), ('wrap', kdrv.get(uU, wrap=wspec())),
+                               ('dec', kdrv.decrypt(uU, cbc, data=ref_ct, iv=iv16)), ('get', kdrv.get(uU))):
+                o, it, _ = req(item)
+                ctx.count('server.key_unchanged.%s' % kind)
+                judge(label, kind, o, it)
+
+        if uU is not None and uW is not None:
+            check_key('registration')
+            hpar = ca.DerivationParameters(cryptographic_parameters=kdrv.crypto_params(hashing_algorithm=H.SHA_256),
+                                           derivation_data=b'derivation data', salt=b'salt')
+            use_ops = [('wrapped Get', 'wrap', lambda: kdrv.get(uU, wrap=wspec())), ('Encrypt', 'enc', enc_item), ('MAC', 'mac', mac_item),
+                       ('Decrypt', 'dec', lambda: kdrv.decrypt(uU, cbc, data=ref_ct, iv=iv16)),
+                       ('DeriveKey', None, lambda: kdrv.derive_key([uU], D.HMAC, hpar, attrs=kdrv.sym_attrs(A.AES, 128, [CM.ENCRYPT])))]
+            commits = [('Create', lambda: kdrv.create(A.AES, 128, mask=[CM.ENCRYPT]))]
+            hist = 0
+            for uname, ukind, umk in use_ops:
+                # (a) the use alone; (b) use + a later item of the same request that commits; (c) use + crypto items with the same key
+                plans = [[(uname, ukind, umk)],
+                         [(uname, ukind, umk), ('Create', None, commits[0][1])],
+                         [(uname, ukind, umk), ('Encrypt', 'enc', enc_item), ('MAC', 'mac', mac_item), ('Get', 'get', lambda: kdrv.get(uU)),
+                          ('Create', None, commits[0][1])]]
+                for plan in plans:
+                    hist += 1
+                    label = 'batch [%s]' % '; '.join(n for n, _, _ in plan)
+                    res = reqn([mk() for _, _, mk in plan], version=(1, 4) if hist % 2 else (2, 0))
+                    ctx.case_seen(('srv-batch', label))
+                    ctx.count('server.batch.%d_items' % len(plan))
+                    for (n, kind, _), (o, it) in zip(plan, res):
+                        if kind:
+                            judge(label + ' (item %s inside the batch)' % n, kind, o, it)
+                    check_key(label)
+            # Activate as the committing item: a fresh key is created and activated next to a wrapped Get
+            o, it, _ = req(kdrv.create(A.AES, 128, mask=[CM.ENCRYPT]))
+            if o == 'done':
+                nu = kdrv.first_uid(it)
+                res = reqn([kdrv.get(uU, wrap=wspec()), kdrv.activate(nu)])
+                judge('batch [wrapped Get; Activate] (inside)', 'wrap', res[0][0], res[0][1])
+                check_key('batch [wrapped Get; Activate]')
+            srv.restart()
+            check_key('all of the above, then a restart of the engine on the same database')
+
         # ---------------- Create / CreateKeyPair / Sign / SignatureVerify
         seen = set()
         for alg, bits in [(A.AES, 128), (A.AES, 256), (A.TRIPLE_DES, 192), (A.BLOWFISH, 448), (A.CAMELLIA, 192), (A.CAST5, 40), (A.RC4, 256)]:
@@ -1340,6 +1461,8 @@ def run_server(ctx, cases, meta, rsa_cache):
             req(kdrv.activate(other_pub))
             _, itp, _ = req(kdrv.get(pub_uid))
             pub_bytes = hx(itp['payload']['secret']['key_block']['key_value']['key_material'])
+            _, itq, _ = req(kdrv.get(priv_uid))
+            priv_bytes = hx(itq['payload']['secret']['key_block']['key_value']['key_material'])
             combos = [dict(dsa=d, alg=None, hash=None, pad=pd) for d in (DSA.SHA1_WITH_RSA_ENCRYPTION, DSA.SHA256_WITH_RSA_ENCRYPTION, DSA.SHA512_WITH_RSA_ENCRYPTION, DSA.MD5_WITH_RSA_ENCRYPTION)
                       for pd in (P.PSS, P.PKCS1v15)]
             combos += [dict(dsa=None, alg=A.RSA, hash=h, pad=pd) for h in (H.SHA_1, H.SHA_224, H.SHA_256, H.SHA_384, H.SHA_512)
@@ -1377,6 +1500,17 @@ def run_server(ctx, cases, meta, rsa_cache):
                 o3, v3, _ = sv(other_pub, msg, sig)
                 if o3 != 'done' or v3 != 'INVALID':
                     viol(ctx, 'SignatureVerify', 'signature checked with the key of another pair is not INVALID', q, {'outcome': o3, 'validity': v3})
+            # Sign / SignatureVerify only use the keys: stored material unchanged, also when a later batch item commits
+            pss = kdrv.crypto_params(digital_signature_algorithm=DSA.SHA256_WITH_RSA_ENCRYPTION, padding_method=P.PSS)
+            res = reqn([kdrv.sign(priv_uid, pss, data=b'batch'), kdrv.create(A.AES, 128, mask=[CM.ENCRYPT])])
+            if res[0][0] == 'done':
+                sg = hx(res[0][1]['payload']['signature_data'])
+                reqn([kdrv.signature_verify(pub_uid, pss, data=b'batch', signature=sg), kdrv.create(A.AES, 128, mask=[CM.ENCRYPT])])
+            for uid_, want, nm in ((priv_uid, priv_bytes, 'private'), (pub_uid, pub_bytes, 'public')):
+                _, itg, _ = req(kdrv.get(uid_))
+                got = hx(itg['payload']['secret']['key_block']['key_value']['key_material']) if itg['payload'] else None
+                if got != want:
+                    viol(ctx, 'Get', 'stored %s key material changed by Sign / SignatureVerify' % nm, {'size': size}, {})
     finally:
         srv.close()
 
